@@ -221,6 +221,11 @@ pub trait Sut: Clone + Debug + PartialEq + Serialize + DeserializeOwned + Send +
     fn new() -> Self;
     /// draw a random abstract command (domain-sized arguments; indices are reduced modulo the live length at execution)
     fn random_cmd(rng: &mut crate::rng::Rng, sh: &Shadow) -> Cmd;
+    /// commands of the *conflict templates* (campaign::gen_history, policy 254): role 0 = writer on the hot path,
+    /// role 1 = nested remover on the hot path, role 2 = outer remover of the hot key; None = no templates for this type
+    fn template_cmd(_role: u8, _rng: &mut crate::rng::Rng) -> Option<Cmd> {
+        None
+    }
     /// interpret a command at replica `actor` against the current state through the public API
     fn gen(&self, actor: A, cmd: &Cmd, sh: &mut Shadow, old: &Self) -> Option<Gen<Self::Op>>;
     fn apply_op(&mut self, op: Self::Op);
@@ -256,4 +261,25 @@ pub fn nk() -> u8 {
 }
 pub fn nm() -> u8 {
     NM.load(Ordering::Relaxed)
+}
+
+thread_local! {
+    /// "hot path" profile of the current history: most commands hit key 0 / member 0 at every level, so that
+    /// scenarios needing several actors on *one* key path (nested removes vs outer removes vs concurrent
+    /// writers) become likely instead of being diluted over the key space
+    pub static HOT: std::cell::Cell<bool> = const { std::cell::Cell::new(false) };
+}
+pub fn rand_key(rng: &mut crate::rng::Rng) -> u64 {
+    if HOT.with(|h| h.get()) && rng.chance(4, 5) {
+        0
+    } else {
+        rng.below(nk() as usize) as u64
+    }
+}
+pub fn rand_member(rng: &mut crate::rng::Rng) -> u64 {
+    if HOT.with(|h| h.get()) && rng.chance(3, 5) {
+        0
+    } else {
+        rng.below(nm() as usize) as u64
+    }
 }
